@@ -11,7 +11,7 @@ def wrapperOf : String → Option Wrapper
 def toolOf : String → Option Tool
   | "ok" => some .ok | "reorder" => some .reorder | "garbage_empty" => some .garbageEmpty
   | "garbage_ragged" => some .garbageRagged | "garbage_missing" => some .garbageMissing
-  | "garbage_length" => some .garbageLength
+  | "garbage_length" => some .garbageLength | "garbage_swap" => some .garbageSwap | "bigout" => some .bigout
   | "garbage_tree" => some .garbageTree | "exit3" => some .exit3 | "hang" => some .hang
   | "sigkill" => some .sigkill | "hang_ignore_term" => some .hangIgnoreTerm
   | "missing" => some .missing | "isdir" => some .isdir | "nulbyte" => some .nulbyte | _ => none
@@ -51,6 +51,13 @@ def callOf : List String → Option Call
   | ["start"] => some .start
   | ["join", "-"] => some (.join .none)
   | ["join", "t"] => some (.join .pos)
+  | ["join", "5"] => some (.join .pos)          -- a generous positive timeout (5 s)
+  | ["chdir"] => some .chdir
+  | ["callbad", m] => some (.methodBad m)
+  | ["setgap", a] => a.toInt?.map fun a => .setGap a none
+  | ["setgap", a, b] => match a.toInt?, b.toInt? with
+    | some a, some b => some (.setGap a (some b))
+    | _, _ => none
   | ["join", "0"] => some (.join .zero)
   | ["join", "0.0"] => some (.join .zero)
   | ["cancel"] => some .cancel
